@@ -30,7 +30,7 @@ func FuzzC09(f *testing.F) {
 		if len(input) > 1<<16 {
 			return
 		}
-		if v, _ := totality(c09Config(int(cfg)), input); v != nil {
+		if v, _ := totalityWith(func() *saml2.SAMLServiceProvider { return c09Build(int(cfg)) }, input); v != nil {
 			t.Fatalf("VIOLATION-CANDIDATE property=C09 sig=%s\n%s", v.Sig, v.Detail)
 		}
 	})
